@@ -38,7 +38,7 @@ pub fn pairs() -> Vec<Pair> {
 }
 
 /// the values of the legacy type the database's own tables allow
-fn legacy_values(rng: &mut Rng, p: &Pair, limit: usize) -> Vec<Variant> {
+pub fn legacy_values(rng: &mut Rng, p: &Pair, limit: usize) -> Vec<Variant> {
     let mut v: Vec<Variant> = match &p.old_ty {
         DataType::Enum(name) => {
             let mut items: Vec<u32> = db().enums.get(name.as_ref()).map(|e| e.items.values().copied().collect()).unwrap_or_default();
@@ -64,7 +64,7 @@ fn legacy_values(rng: &mut Rng, p: &Pair, limit: usize) -> Vec<Variant> {
 }
 
 /// an explicit value of the new property, of the type it is serialized with
-fn explicit_value(rng: &mut Rng, p: &Pair) -> Option<(String, Variant)> {
+pub fn explicit_value(rng: &mut Rng, p: &Pair) -> Option<(String, Variant)> {
     let ser = find_serialized_property_descriptor(&p.class, &p.new, db())?;
     let ty = data_type_vt(&ser.data_type);
     let v = match ty {
